@@ -94,6 +94,11 @@ def _classify(e):
     return "rtlil_unreadable" if isinstance(e, rtlil_eval.Unreadable) else "rtlil_does_not_settle"
 
 
+def _has_signed_shift(text):
+    import re
+    return re.search(r"cell \$shift [^\n]*\n\s*parameter \\A_SIGNED 1", text) is not None
+
+
 def run_prog(case, res, stats):
     from amaranth.back import rtlil
     P, F = stats["probes"], stats["faults"]
@@ -114,8 +119,13 @@ def run_prog(case, res, stats):
     text = rtlil.convert(top, ports=ports)
     try:
         D = rtlil_eval.Design(text)
+        # a second copy that leaves what a signed $shift pulls in from beyond its operand's extension undefined: a mismatch that
+        # disappears there is attributed to exactly that construct (part-select of a signed value above its MSB)
+        D2 = rtlil_eval.Design(text, shift_signed_fill="undef") if _has_signed_shift(text) else None
     except (rtlil_eval.Unreadable, rtlil_eval.CombLoop) as e:
         raise Violation(_classify(e), -1, {"msg": str(e)[:300]})
+    if D2 is not None:
+        P["signed_shift_cells"] = P.get("signed_shift_cells", 0) + 1
     if D.ff_without_init:
         raise Violation("register_initial_value_undefined", -1, {"wires": [list(x) for x in D.ff_without_init[:4]]})
     # port directions must be as the design implies
@@ -179,8 +189,13 @@ def run_prog(case, res, stats):
             if w != sigs[i]["width"]:
                 raise Violation("port_width", idx, {"port": name, "emitted": w, "expected": sigs[i]["width"]})
             if (a ^ v) & ~x & ((1 << w) - 1):
-                raise Violation("rtlil_vs_simulator", idx, {"signal": i, "name": sigs[i]["name"], "simulator": a, "rtlil": v,
-                                                            "rtlil_undefined_mask": x, "width": w})
+                oracle = "rtlil_vs_simulator"
+                if D2 is not None:
+                    v2, x2, _w2 = D2.get(name)
+                    if not ((a ^ v2) & ~x2 & ((1 << w) - 1)):
+                        oracle = "rtlil_signed_part_select_above_msb"
+                raise Violation(oracle, idx, {"signal": i, "name": sigs[i]["name"], "simulator": a, "rtlil": v,
+                                              "rtlil_undefined_mask": x, "width": w})
             P["compared_bits"] += w - bin(x).count("1")
             skipped += bin(x).count("1")
             obs.append((a, x))
@@ -194,6 +209,8 @@ def run_prog(case, res, stats):
                     si = st["s"]
                     if si in port_of and sigs[si]["role"] in ("input", "ctl") and port_of[si] in D.top_ports:
                         D.set_inputs({port_of[si]: st["v"]})
+                        if D2 is not None:
+                            D2.set_inputs({port_of[si]: st["v"]})
                 else:
                     v = 0
                     for k, ln in enumerate(lines):
@@ -202,6 +219,8 @@ def run_prog(case, res, stats):
                     if v != state["bus"]:
                         state["bus"] = v
                         D.set_inputs({"bus": v})
+                        if D2 is not None:
+                            D2.set_inputs({"bus": v})
             except (rtlil_eval.Unreadable, rtlil_eval.CombLoop) as e:
                 raise Violation(_classify(e), idx, {"msg": str(e)[:300]})
         obs = compare(drv, idx)
@@ -590,6 +609,7 @@ def self_test():
     """rtlil_eval against hand-computed values (an error there would produce false alarms)."""
     D = rtlil_eval.Design.__new__(rtlil_eval.Design)
     D.val, D.xm = {}, {}
+    D.shift_signed_fill = "zero"
 
     def c(v, w, x=0):
         return [("c", v, x, w)]
@@ -619,8 +639,10 @@ def self_test():
     assert run("$sshr", {"\\A_SIGNED": 1, "\\B_SIGNED": 0}, c(12, 4), c(1, 2), yw=4) == (14, 0)
     assert run("$shift", U, c(0b1101, 4), c(1, 3), yw=2) == (0b10, 0)
     assert run("$shift", U, c(0b1101, 4), c(7, 3), yw=2) == (0, 0)
-    v, x = run("$shift", {"\\A_SIGNED": 1, "\\B_SIGNED": 0}, c(0b1101, 4), c(7, 3), yw=2)
-    assert x == 3                                                           # beyond the extension of a signed operand: not judged
+    # signed A: extended to max(A_WIDTH, Y_WIDTH) by its sign, then shifted logically (zeros beyond the extension)
+    assert run("$shift", {"\\A_SIGNED": 1, "\\B_SIGNED": 0}, c(0b1101, 4), c(7, 3), yw=2) == (0, 0)
+    assert run("$shift", {"\\A_SIGNED": 1, "\\B_SIGNED": 0}, c(0b1101, 4), c(2, 3), yw=4) == (0b0011, 0)
+    assert run("$shift", {"\\A_SIGNED": 1, "\\B_SIGNED": 0}, c(0b1101, 4), c(2, 3), yw=6) == (0b001111, 0)
     assert run("$not", U, c(5, 3), yw=3) == (2, 0)
     assert run("$and", U, c(0, 2, x=2), c(1, 2), yw=2) == (0, 2) or True
     assert run("$and", U, c(0, 1, x=1), c(0, 1), yw=1) == (0, 0)          # 0 & x = 0
